@@ -1,5 +1,6 @@
 import XrsVerif.Proofs.Focal
 import XrsVerif.Proofs.FocalHot
+import XrsVerif.Proofs.ILFocal
 /-
   C09 -- Focal results are statistics of exactly the cells under the kernel.
 
@@ -405,6 +406,130 @@ theorem hotspots_wrapper :
 
 end Exact
 
+/-! ## Part C: the program generated from `_convolve_2d_numpy` (layer T3)
+
+  `Gen.IL.convolve2d` is `_convolve_2d_numpy` translated statement by statement by the general translator of layer T3
+  (harness/facts_il.py) into ILang: integer bookkeeping (`//`, `min`, `max`), numba's index normalisation, **bounds
+  checks that stop the program**, the four nested `range` loops, the allocation and NaN fill of `out`.  The theorems
+  below are about that program: run on *any* raster and *any* kernel of odd shape it returns, without reading or
+  writing out of range, exactly the model `convolve` of Part A/B (`il_convolve_refines`) -- so `conv_spec`,
+  `conv_nan_margin`, `conv_finite`, `conv_nan_in_window` are statements about what the generated code computes
+  (`il_conv_cell`, `il_conv_finite`, `il_conv_nan_in_window`).  The sum is accumulated from `0.0` with `Fl.add` in the
+  program's order (kernel rows outer, kernel columns inner); nothing is assumed about `Fl.add` / `Fl.mul`. -/
+section ILGeneric
+open XrsVerif.IL
+variable {F : Type} [Fl F]
+
+/-- the specification of Proofs/ILFocal.lean is the model of Part A -/
+theorem convOut_eq_convolve (data kernel : List F) (nx ny a b : Nat) :
+    convOut data kernel nx ny a b =
+      convolve (listArr data ny) (listArr kernel (2 * b + 1)) nx ny (2 * a + 1) (2 * b + 1) := by
+  unfold convOut convolve
+  apply List.map_congr_left
+  intro c _
+  have ha : (2 * a + 1) / 2 = a := by omega
+  have hb : (2 * b + 1) / 2 = b := by omega
+  split
+  · rename_i h
+    rw [conv_spec _ _ nx ny (2 * a + 1) (2 * b + 1) c.1 c.2 (by rw [ha]; exact h.1) (by rw [ha]; exact h.2.1)
+      (by rw [hb]; exact h.2.2.1) (by rw [hb]; exact h.2.2.2) (by omega) (by omega), ha, hb]
+    exact convSum_eq_fsum _ _ _ _ _ _ _ _
+  · rename_i h
+    rw [conv_nan_margin]
+    rw [ha, hb]
+    exact h
+
+/-- **il_convolve_refines.** the generated `_convolve_2d_numpy`, any raster, any kernel of odd shape
+    `(2a+1) × (2b+1)` (also larger than the raster): ends with `return`, no out-of-range access, inputs unchanged,
+    `out` has the raster's shape and is the model `convolve` -/
+theorem il_convolve_refines (data kernel : List F) (nx ny a b : Nat) (s : State F) (fuel : Nat)
+    (hin : ConvInput data kernel nx ny (2 * a + 1) (2 * b + 1) s) :
+    let r := Gen.IL.convolve2d.run s fuel
+    r.ctl = .ret ∧ r.shp "out" = [nx, ny] ∧ r.fa "data" = data ∧ r.fa "kernel" = kernel ∧
+    r.fa "out" = convolve (listArr data ny) (listArr kernel (2 * b + 1)) nx ny (2 * a + 1) (2 * b + 1) := by
+  have h := convolve2d_refines data kernel nx ny a b s fuel hin
+  rw [convOut_eq_convolve] at h
+  exact h
+
+/-- **il_conv_cell.** cell `(p, q)` of the generated program's output: where the window fits in the raster, the sum
+    (from 0, row-major over the kernel) of `kernel[k, l] * data[p - a + k, q - b + l]`; NaN elsewhere -/
+theorem il_conv_cell (data kernel : List F) (nx ny a b : Nat) (s : State F) (fuel : Nat)
+    (hin : ConvInput data kernel nx ny (2 * a + 1) (2 * b + 1) s) (p q : Nat) (hp : p < nx) (hq : q < ny) :
+    ((Gen.IL.convolve2d.run s fuel).fa "out")[p * ny + q]? = some
+      (if a ≤ p ∧ p + a < nx ∧ b ≤ q ∧ q + b < ny then
+        fsum ((allCells (2 * a + 1) (2 * b + 1)).map fun c =>
+          Fl.mul (listArr kernel (2 * b + 1) c.1 c.2)
+            (listArr data ny ((p : Int) - (a : Int) + c.1) ((q : Int) - (b : Int) + c.2)))
+       else Fl.nan) := by
+  have ha : (2 * a + 1) / 2 = a := by omega
+  have hb : (2 * b + 1) / 2 = b := by omega
+  rw [(il_convolve_refines data kernel nx ny a b s fuel hin).2.2.2.2, convolve_getElem? _ _ _ _ _ _ _ _ hp hq]
+  congr 1
+  split
+  · rename_i h
+    rw [conv_spec _ _ nx ny (2 * a + 1) (2 * b + 1) p q (by rw [ha]; omega) (by rw [ha]; omega)
+      (by rw [hb]; omega) (by rw [hb]; omega) (by omega) (by omega), ha, hb]
+  · rename_i h
+    rw [conv_nan_margin]
+    rw [ha, hb]
+    omega
+
+/-- **il_convolve_even_err.** a kernel with an even side is outside the property's domain ("any odd kernel shape"), and
+    for a reason: whenever the outer loops visit a cell, the generated program stops at an out-of-range read of
+    `kernel` (numba does not check: undefined behaviour).  `custom_kernel` rejects such kernels (`kernel_validation`),
+    `convolution_2d` / `hotspots` do not call it. -/
+theorem il_convolve_even_err (data kernel : List F) (nx ny nkx nky : Nat) (s : State F) (fuel : Nat)
+    (hin : ConvInput data kernel nx ny nkx nky s) (heven : nkx % 2 = 0 ∨ nky % 2 = 0)
+    (hvisx : 2 * (nkx / 2) < nx) (hvisy : 2 * (nky / 2) < ny) :
+    (Gen.IL.convolve2d.run s fuel).ctl = .err "index" :=
+  convolve2d_even_err data kernel nx ny nkx nky s fuel hin heven hvisx hvisy
+
+-- non-vacuity: a 2x2 kernel on a 3x3 raster, a 3x2 kernel on a 3x4 raster, any contents, any number type
+example (data kernel : List F) : (Gen.IL.convolve2d.run (convState data kernel 3 3 2 2) 0).ctl = .err "index" :=
+  il_convolve_even_err data kernel 3 3 2 2 _ 0 (convState_input _ _ _ _ _ _) (by decide) (by decide) (by decide)
+example (data kernel : List F) : (Gen.IL.convolve2d.run (convState data kernel 3 4 3 2) 0).ctl = .err "index" :=
+  il_convolve_even_err data kernel 3 4 3 2 _ 0 (convState_input _ _ _ _ _ _) (by decide) (by decide) (by decide)
+
+end ILGeneric
+
+section ILExact
+open XrsVerif.IL
+variable {K : Type} [Field K] [LinearOrder K] [IsStrictOrderedRing K] [Trig K]
+
+/-- **il_conv_finite.** exact arithmetic: with finite kernel weights and a window of finite cells the generated
+    program stores the kernel-weighted sum of the window at the cell -/
+theorem il_conv_finite (data kernel : List (NV K)) (nx ny a b : Nat) (s : State (NV K)) (fuel : Nat)
+    (hin : ConvInput data kernel nx ny (2 * a + 1) (2 * b + 1) s) (p q : Nat)
+    (hp0 : a ≤ p) (hp1 : p + a < nx) (hq0 : b ≤ q) (hq1 : q + b < ny) (kf df : Int × Int → K)
+    (hk : ∀ c ∈ allCells (2 * a + 1) (2 * b + 1), listArr kernel (2 * b + 1) c.1 c.2 = some (kf c))
+    (hd : ∀ c ∈ allCells (2 * a + 1) (2 * b + 1),
+      listArr data ny ((p : Int) - (a : Int) + c.1) ((q : Int) - (b : Int) + c.2) = some (df c)) :
+    ((Gen.IL.convolve2d.run s fuel).fa "out")[p * ny + q]? =
+      some (some ((allCells (2 * a + 1) (2 * b + 1)).map fun c => kf c * df c).sum) := by
+  have ha : (2 * a + 1) / 2 = a := by omega
+  have hb : (2 * b + 1) / 2 = b := by omega
+  rw [(il_convolve_refines data kernel nx ny a b s fuel hin).2.2.2.2,
+    convolve_getElem? _ _ _ _ _ _ _ _ (by omega) (by omega)]
+  rw [conv_finite _ _ nx ny (2 * a + 1) (2 * b + 1) p q kf df (by rw [ha]; omega) (by rw [ha]; omega)
+    (by rw [hb]; omega) (by rw [hb]; omega) (by omega) (by omega) hk (by rw [ha, hb]; exact hd)]
+
+/-- **il_conv_nan_in_window.** a NaN cell anywhere under the kernel (also under a zero weight) makes the generated
+    program's result NaN -/
+theorem il_conv_nan_in_window (data kernel : List (NV K)) (nx ny a b : Nat) (s : State (NV K)) (fuel : Nat)
+    (hin : ConvInput data kernel nx ny (2 * a + 1) (2 * b + 1) s) (p q : Nat)
+    (hp0 : a ≤ p) (hp1 : p + a < nx) (hq0 : b ≤ q) (hq1 : q + b < ny) (k l : Nat)
+    (hk : k < 2 * a + 1) (hl : l < 2 * b + 1)
+    (hnan : listArr data ny ((p : Int) - (a : Int) + (k : Int)) ((q : Int) - (b : Int) + (l : Int)) = none) :
+    ((Gen.IL.convolve2d.run s fuel).fa "out")[p * ny + q]? = some none := by
+  have ha : (2 * a + 1) / 2 = a := by omega
+  have hb : (2 * b + 1) / 2 = b := by omega
+  rw [(il_convolve_refines data kernel nx ny a b s fuel hin).2.2.2.2,
+    convolve_getElem? _ _ _ _ _ _ _ _ (by omega) (by omega)]
+  rw [conv_nan_in_window _ _ nx ny (2 * a + 1) (2 * b + 1) p q k l (by rw [ha]; omega) (by rw [ha]; omega)
+    (by rw [hb]; omega) (by rw [hb]; omega) (by omega) (by omega) hk hl (by rw [ha, hb]; exact hnan)]
+
+end ILExact
+
 /-! ## non-vacuity: concrete evaluations over ℚ (kernel-checked) -/
 section Examples
 instance : Trig ℚ := ⟨id, id, fun a _ => a, id, id, id, id⟩
@@ -441,6 +566,17 @@ example : (none : NV ℚ) ∉ [some (7 : ℚ)] := by decide
 -- convolution: weighted (non 0/1) kernel, interior cell of a 3x3 raster, NaN on the margin
 example : convolve d3 k3 3 3 3 3 = [none, none, none, none, some 33, none, none, none, none] := by decide +kernel
 example : ((3 / 2 : Nat) : Int) ≤ 1 ∧ (1 : Int) < ((3 : Nat) : Int) - ((3 / 2 : Nat) : Int) ∧ 3 % 2 = 1 := by decide
+-- the generated program (Part C) on the same raster and kernel, as flat row-major lists
+private def d3l : List (NV ℚ) := [some 1, some 2, some 3, some 4, some 5, some 6, some 7, some 8, some 9]
+private def k3l : List (NV ℚ) := [some 0, some 1, some 0, some 1, some 1, some 1, some 0, some 2, some 0]
+example : ((Gen.IL.convolve2d.run (convState d3l k3l 3 3 3 3) 0).ctl,
+      (Gen.IL.convolve2d.run (convState d3l k3l 3 3 3 3) 0).fa "out") =
+    (IL.Ctl.ret, [none, none, none, none, some 33, none, none, none, none]) := by
+  have h := il_convolve_refines d3l k3l 3 3 1 1 (convState d3l k3l 3 3 3 3) 0 (convState_input _ _ _ _ _ _)
+  rw [Prod.mk.injEq]
+  refine ⟨h.1, ?_⟩
+  rw [h.2.2.2.2]
+  decide +kernel
 -- hotspots: the classes, oddness, and a raster whose deviation is not zero
 example : hotspotClass (some (2 : ℚ)) = some 95 ∧ hotspotClass (some (-2 : ℚ)) = some (-95) ∧
     hotspotClass (some (33 / 20 : ℚ)) = some 0 ∧ hotspotClass (some (3 : ℚ)) = some 99 ∧
